@@ -16,13 +16,14 @@ import numpy as np
 
 from .. import models
 from ..core import RunResult, adigest, mix
+from ..driver import pristine_library_state
 from .hist_common import SAME, TAU, call_value, quiet
 
 NAME = "H"
 PROPERTY = "C12"
 RUNS = {"quick": 220, "thorough": 5000}
 RUN_WALL_CAP = 300.0
-REQUIRED_PROBES = {"quick": ["kets_list", "density_list", "hierarchy_not_last", "hierarchy_then_ppt", "level2", "dims_2x3", "complex_states", "bell_list", "primal_value", "local_unitary_checked"], "thorough": ["kets_list", "density_list", "hierarchy_not_last", "hierarchy_then_ppt", "level2", "level2_2x3", "dims_2x3", "complex_states", "bell_list", "primal_value", "local_unitary_checked"]}
+REQUIRED_PROBES = {"quick": ["kets_list", "density_list", "hierarchy_not_last", "hierarchy_then_ppt", "level2", "dims_2x3", "complex_states", "bell_list", "primal_value", "local_unitary_checked", "two_lists_same_shape"], "thorough": ["kets_list", "density_list", "hierarchy_not_last", "hierarchy_then_ppt", "level2", "level2_2x3", "dims_2x3", "complex_states", "bell_list", "primal_value", "local_unitary_checked"]}
 COMPONENTS = {"real": ["toqito.state_opt.ppt_distinguishability (primal and dual)", "toqito.state_opt.symmetric_extension_hierarchy", "toqito.state_opt.state_distinguishability", "toqito.channels.partial_trace / partial_transpose (cvxpy branch)", "toqito.perms.symmetric_projection", "picos + cvxopt, cvxpy + SCS/Clarabel"], "stub": []}
 RULE = ("one run = one caller-owned list of 2..4 states on 2x2 or 2x3 (column kets / density matrices / 1-D vectors where accepted; real and complex; arbitrary prior; or the four Bell kets) reused by 3..6 calls in seeded order: "
         "ppt_distinguishability (party 0 or 1, primal or dual), symmetric_extension_hierarchy (level 1 or 2, dim as list / scalar / omitted), state_distinguishability; "
@@ -45,7 +46,7 @@ def preload():
 BELL = [np.array([1, 0, 0, 1]) / np.sqrt(2), np.array([1, 0, 0, -1]) / np.sqrt(2), np.array([0, 1, 1, 0]) / np.sqrt(2), np.array([0, 1, -1, 0]) / np.sqrt(2)]
 
 
-def draw_states(st, run_index):
+def draw_states(st, run_index, like=None):
     kind = st.weighted([("kets", 6), ("density", 3), ("vec1d", 1), ("bell", 1)])
     if run_index % 8 == 3:
         kind = "bell"
@@ -53,6 +54,8 @@ def draw_states(st, run_index):
         kind = "density"
     dims = [2, 2] if st.draw(3) else [2, 3]
     cplx = bool(st.draw(2))
+    if like is not None:
+        kind, dims, cplx = ("kets" if like["kind"] == "bell" else like["kind"]), list(like["dims"]), like["complex"]
     rng = st.nprng()
     if kind == "bell":
         dims = [2, 2]
@@ -61,6 +64,8 @@ def draw_states(st, run_index):
         return L, probs, dims, {"kind": "bell", "dims": dims, "n": 4, "complex": False, "prior": "uniform"}
     d = dims[0] * dims[1]
     n = st.int_range(2, 4)
+    if like is not None:
+        n = like["n"]
     L = []
     for _ in range(n):
         if kind == "density":
@@ -179,9 +184,16 @@ def run(cs, tier, run_index):
     def fresh():
         return [np.array(x, copy=True) for x in pristine_src]
 
+    # a second caller-owned list of the same shape and different contents, used in between
+    L2 = None
+    if cs.s("config:two").draw(3) == 2 or run_index % 8 == 7:
+        L2, probs2, _, _ = draw_states(cs.s("states:2"), -1, like=meta)
+        res.probe("two_lists_same_shape")
     pristine, vals, names = {}, {}, []
     for k, op in enumerate(ops):
         key = json.dumps(op, sort_keys=True)
+        if L2 is not None and cs.s("ops:which").draw(2) and not (meta["kind"] == "vec1d" and op["op"] == "seh"):
+            call_value(op_fn(lib, L2, probs2, dims, op), res, op["op"] + "(other list)")
         out = call_value(op_fn(lib, L, probs, dims, op), res, op["op"] + ("_" + op["form"] if op["op"] == "ppt" else ""))
         names.append(op["op"])
         res.log.add("op", k, key, out[1] if out[0] == "ok" else out[:2])
@@ -203,7 +215,8 @@ def run(cs, tier, run_index):
             pristine[key] = v
         else:
             if key not in pristine:
-                o2 = call_value(op_fn(lib, fresh(), None if probs is None else list(probs), dims, op), res, op["op"] + "(pristine)")
+                with pristine_library_state():
+                    o2 = call_value(op_fn(lib, fresh(), None if probs is None else list(probs), dims, op), res, op["op"] + "(pristine)")
                 pristine[key] = o2[1] if o2[0] == "ok" else None
             if pristine[key] is not None:
                 res.checks_sim += 1
